@@ -3688,6 +3688,13 @@ static Type check_statement_impl(TypeChecker *tc, ASTNode *stmt) {
         }
 
         case AST_FOR: {
+            /* Range expression should return a range.  It is evaluated before the loop variable
+             * exists: a name in it that equals the loop variable's refers to the OUTER binding. */
+            g_checking_for_range = (stmt->as.for_stmt.range_expr &&
+                                    stmt->as.for_stmt.range_expr->type == AST_CALL) ? stmt->as.for_stmt.range_expr : NULL;
+            check_expression(stmt->as.for_stmt.range_expr, tc->env);
+            g_checking_for_range = NULL;
+
             /* For loop variable has type int */
             int for_scope_start = tc->env->symbol_count;
             Value val = create_void();
@@ -3699,12 +3706,6 @@ static Type check_statement_impl(TypeChecker *tc, ASTNode *stmt) {
                 loop_var_sym->def_line = stmt->line;
                 loop_var_sym->def_column = stmt->column;
             }
-
-            /* Range expression should return a range */
-g_checking_for_range = (stmt->as.for_stmt.range_expr &&
-                                    stmt->as.for_stmt.range_expr->type == AST_CALL) ? stmt->as.for_stmt.range_expr : NULL;
-            check_expression(stmt->as.for_stmt.range_expr, tc->env);
-            g_checking_for_range = NULL;
 
             /* Check the loop body (increment loop depth for break/continue validation) */
             tc->loop_depth++;
